@@ -60,7 +60,7 @@ def plan_st(draw, tier):
             queries.append(["scaled", i, [c * v for v in stored[i]]])
         elif kind_q == "scaled":
             i = draw(st.integers(0, len(stored) - 1))
-            c = draw(st.sampled_from([3.0, 0.1, 1.7, 1e6, 1e-3]))
+            c = draw(st.sampled_from([3.0, 0.1, 1.7, 1e6, 1e-3, 1e-10, 1e-12]))
             queries.append(["scaled", i, [c * v for v in stored[i]]])
         elif kind_q == "zero":
             queries.append(["zero", -1, [0] * h.d])
